@@ -73,4 +73,87 @@ theorem hostport_default (scheme host : Bytes) (h : lastIndexOf host 58 ≤ last
   have : ¬ (lastIndexOf host 58 > lastIndexOf host 93) := by omega
   simp [this]
 
+/-! ### non-vacuity -/
+section NonVacuity
+set_option linter.defProp false
+
+/-- a wss dial through an https proxy whose URL carries user:password, NetDialContext set, backend
+    certificate valid, verification on -/
+def witWssHttpsProxy : MCfg :=
+  { proxy := .https, wss := true, nd := false, ndc := true, ndtls := false, cred := .userpass,
+    cert := .ok, skipVerify := false }
+
+/-- a direct wss dial with a custom NetDialTLSContext (the one path where the library does not do TLS itself) -/
+def witWssCustomTLS : MCfg :=
+  { proxy := .none, wss := true, nd := false, ndc := false, ndtls := true, cred := .none,
+    cert := .ok, skipVerify := false }
+
+/-- a wss dial through a SOCKS5 proxy to a backend with an untrusted certificate, InsecureSkipVerify set -/
+def witWssSocksSkip : MCfg :=
+  { proxy := .socks5, wss := true, nd := true, ndc := false, ndtls := false, cred := .user,
+    cert := .untrusted, skipVerify := true }
+
+/-- a plain ws dial through an http proxy with credentials -/
+def witWsHttpProxy : MCfg :=
+  { proxy := .http, wss := false, nd := false, ndc := false, ndtls := true, cred := .userpass,
+    cert := .other, skipVerify := false }
+
+/-- non-vacuity of `wss_verified_tls`: wss through an https proxy with userpass credentials; the left
+    disjunct (library TLS over the tunnel) is the one that holds -/
+example : (dialPlan witWssHttpsProxy).libTLSBackend = true ∨
+    (witWssHttpsProxy.proxy = .none ∧ witWssHttpsProxy.ndtls = true ∧ (dialPlan witWssHttpsProxy).customTLSBackend = true) :=
+  wss_verified_tls witWssHttpsProxy rfl
+/-- the witness of `wss_verified_tls` is the realistic path: CONNECT with Basic credentials, TLS to the proxy and TLS to the backend -/
+example : (dialPlan witWssHttpsProxy).libTLSBackend = true ∧ (dialPlan witWssHttpsProxy).connect = true ∧
+    (dialPlan witWssHttpsProxy).connectAuth = true ∧ (dialPlan witWssHttpsProxy).libTLSFirstHop = true := by decide
+
+/-- non-vacuity of `wss_verified_tls`, right disjunct: direct wss with a custom NetDialTLSContext -/
+example : (dialPlan witWssCustomTLS).libTLSBackend = true ∨
+    (witWssCustomTLS.proxy = .none ∧ witWssCustomTLS.ndtls = true ∧ (dialPlan witWssCustomTLS).customTLSBackend = true) :=
+  wss_verified_tls witWssCustomTLS rfl
+/-- for the second witness of `wss_verified_tls` the left disjunct is false, so the right one is really needed -/
+example : (dialPlan witWssCustomTLS).libTLSBackend = false ∧ (dialPlan witWssCustomTLS).customTLSBackend = true := by decide
+
+/-- witness for `wss_success_needs_valid_cert`: the https-proxy dial succeeds -/
+def witWssHttpsProxy_succeeds : (dialPlan witWssHttpsProxy).succeeds = true := by decide
+/-- non-vacuity of `wss_success_needs_valid_cert`: both hypotheses hold for the wss / https-proxy /
+    valid-certificate dial (left disjunct) -/
+example : witWssHttpsProxy.cert = .ok ∨ (witWssHttpsProxy.skipVerify = true ∧ (dialPlan witWssHttpsProxy).libTLSBackend = true) :=
+  wss_success_needs_valid_cert witWssHttpsProxy rfl witWssHttpsProxy_succeeds
+
+/-- witness for `wss_success_needs_valid_cert`: the SOCKS5 dial with InsecureSkipVerify succeeds although the certificate is untrusted -/
+def witWssSocksSkip_succeeds : (dialPlan witWssSocksSkip).succeeds = true := by decide
+/-- non-vacuity of `wss_success_needs_valid_cert`, right disjunct: untrusted certificate, verification
+    disabled by the user, library TLS over the SOCKS5 tunnel -/
+example : witWssSocksSkip.cert = .ok ∨ (witWssSocksSkip.skipVerify = true ∧ (dialPlan witWssSocksSkip).libTLSBackend = true) :=
+  wss_success_needs_valid_cert witWssSocksSkip rfl witWssSocksSkip_succeeds
+/-- for the second witness of `wss_success_needs_valid_cert` the left disjunct is false -/
+example : witWssSocksSkip.cert ≠ .ok := by decide
+/-- the hypothesis `succeeds` of `wss_success_needs_valid_cert` is not automatic: the same dial with verification on fails -/
+example : (dialPlan { witWssSocksSkip with skipVerify := false }).succeeds = false := by decide
+
+/-- non-vacuity of `ws_no_backend_tls`: a ws dial through an http proxy (with a NetDialTLSContext set, which must not be used for the backend) -/
+example : (dialPlan witWsHttpProxy).libTLSBackend = false ∧ (dialPlan witWsHttpProxy).customTLSBackend = false :=
+  ws_no_backend_tls witWsHttpProxy rfl
+
+/-- witness for `hostport_default`: "example.com" has no ':' (last index -1) and no ']' (last index -1) -/
+def witHost_noPort : lastIndexOf (strBytes "example.com") 58 ≤ lastIndexOf (strBytes "example.com") 93 := by decide +kernel
+/-- non-vacuity of `hostport_default`: wss://example.com gets port 443 -/
+example : hostPortNoPort (strBytes "wss") (strBytes "example.com") =
+    (strBytes "example.com" ++ (if strBytes "wss" == strBytes "wss" || strBytes "wss" == strBytes "https" then strBytes ":443" else strBytes ":80"),
+     strBytes "example.com") :=
+  hostport_default (strBytes "wss") (strBytes "example.com") witHost_noPort
+
+/-- witness for `hostport_default`: a bracketed IPv6 literal without port: last ':' at 6, ']' at 7 -/
+def witHost_v6 : lastIndexOf (strBytes "[2001::1]") 58 ≤ lastIndexOf (strBytes "[2001::1]") 93 := by decide +kernel
+/-- non-vacuity of `hostport_default`: ws://[2001::1] gets port 80 -/
+example : hostPortNoPort (strBytes "ws") (strBytes "[2001::1]") =
+    (strBytes "[2001::1]" ++ (if strBytes "ws" == strBytes "wss" || strBytes "ws" == strBytes "https" then strBytes ":443" else strBytes ":80"),
+     strBytes "[2001::1]") :=
+  hostport_default (strBytes "ws") (strBytes "[2001::1]") witHost_v6
+/-- the hypothesis of `hostport_default` is not automatic: it fails for a host with an explicit port -/
+example : ¬ (lastIndexOf (strBytes "example.com:8080") 58 ≤ lastIndexOf (strBytes "example.com:8080") 93) := by decide +kernel
+
+end NonVacuity
+
 end WS.Props.C18
